@@ -1,0 +1,11 @@
+//! Verification hooks (compiled only with `--cfg redb_verif`) for items private to `tree_store`.
+//! Add-only; thin wrappers.
+#![allow(missing_docs, clippy::pedantic, clippy::all, dead_code)]
+
+use crate::types::Key;
+use alloc::vec::Vec;
+
+/// The real `branch_separator::<K>`
+pub fn verif_branch_separator<K: Key>(left: &[u8], right: &[u8]) -> Vec<u8> {
+    super::btree_base::branch_separator::<K>(left, right).into_owned()
+}
